@@ -1,23 +1,1142 @@
-//! C17 (work in progress): probe mode only.
+//! C17 correspondence + oracle: operation sequences over channels, references, lazy values and
+//! coroutine threads, run as generated Gluon programs on the real VM.
+//!
+//! A *sequence* = up to 3 lazy declarations (thunk bodies), 2 cells, 2 channels, two coroutine
+//! bodies (thread 1 may resume thread 2) and the main thread's operations. Every operation reports
+//! what it observed through the extern function `ev tid kind a b` (a Rust-side log that survives
+//! hangs and panics). The implementation's answer is the final status plus the event log; the Lean
+//! model (`GluonModel.Chan.runOps`) must print exactly the same.
+//!
+//! The property oracle reads ONLY the program and the event log (no model): FIFO / exactly-once per
+//! channel, empty reported only when empty, last write per cell, thunk body at most once, all forces
+//! agree (and equal the thunk's value), a failing or self-dependent lazy errors on every force and
+//! never hangs, no host panic.
+//!
+//! Programs run in child processes. The top-level future is polled by hand: `Pending` without a
+//! wake-up can never complete (single OS thread, no reactor) — that is a hang, found without waiting.
+//! The first hang of each fingerprint is confirmed with the real blocking `run_expr` under a watchdog.
 use gluon::vm::api::IO;
-use gluon::ThreadExt;
+use gluon::vm::ExternModule;
+use gluon::{primitive, record, RootedThread, Thread, ThreadExt};
+use gv::child::Exit;
+use gv::{Args, Out};
+use serde_json::{json, Value};
+use std::collections::{BTreeMap, VecDeque};
+use std::future::Future;
+use std::io::{BufRead, Write};
+use std::sync::atomic::{AtomicBool, Ordering};
+use std::sync::{Arc, Mutex};
+use std::task::{Context, Poll, Wake, Waker};
+use std::time::Duration;
 
-fn run_src(src: &str) -> String {
+// ---------------------------------------------------------------------------------------------
+// sequences
+
+#[derive(Clone, Debug, PartialEq)]
+enum TExpr {
+    Val(i64),
+    Boom,
+    Add(usize, i64),
+}
+
+#[derive(Clone, Debug, PartialEq)]
+enum Op {
+    Send(usize, i64),
+    Recv(usize),
+    Load(usize),
+    Store(usize, i64),
+    Force(usize),
+    ForceU(usize),
+    Resume(usize),
+    Yield,
+}
+
+#[derive(Clone, Debug, PartialEq)]
+struct Seq {
+    lazies: Vec<TExpr>,
+    cells: [i64; 2],
+    b1: Vec<Op>,
+    b2: Vec<Op>,
+    main: Vec<Op>,
+}
+
+const NLAZY: usize = 3;
+
+impl TExpr {
+    fn sexp(&self) -> String {
+        match self {
+            TExpr::Val(v) => format!("(val {})", v),
+            TExpr::Boom => "boom".into(),
+            TExpr::Add(k, n) => format!("(add {} {})", k, n),
+        }
+    }
+}
+
+impl Op {
+    fn sexp(&self) -> String {
+        match self {
+            Op::Send(c, v) => format!("(send {} {})", c, v),
+            Op::Recv(c) => format!("(recv {})", c),
+            Op::Load(c) => format!("(load {})", c),
+            Op::Store(c, v) => format!("(store {} {})", c, v),
+            Op::Force(k) => format!("(force {})", k),
+            Op::ForceU(k) => format!("(forceu {})", k),
+            Op::Resume(t) => format!("(resume {})", t),
+            Op::Yield => "yield".into(),
+        }
+    }
+    fn glu(&self, t: usize) -> String {
+        match self {
+            Op::Send(c, v) => format!("do _ = xsend {t} {c} s{c} {v}"),
+            Op::Recv(c) => format!("do _ = xrecv {t} {c} r{c}"),
+            Op::Load(c) => format!("do _ = xload {t} {c} c{c}"),
+            Op::Store(c, v) => format!("do _ = xstore {t} {c} c{c} {v}"),
+            Op::Force(k) => format!("do _ = xforce {t} {k} z{k}"),
+            Op::ForceU(k) => format!("do _ = xforceu {t} {k} z{k}"),
+            Op::Resume(j) => format!("do _ = xresume {t} {j} t{j}"),
+            Op::Yield => format!("do _ = xyield {t}"),
+        }
+    }
+    fn shape(&self) -> &'static str {
+        match self {
+            Op::Send(..) => "s",
+            Op::Recv(..) => "r",
+            Op::Load(..) => "l",
+            Op::Store(..) => "w",
+            Op::Force(..) => "f",
+            Op::ForceU(..) => "F",
+            Op::Resume(..) => "R",
+            Op::Yield => "y",
+        }
+    }
+}
+
+impl Seq {
+    fn request(&self) -> String {
+        let ops = |v: &Vec<Op>| v.iter().map(|o| format!(" {}", o.sexp())).collect::<String>();
+        format!(
+            "prog (lazies{}) (cells {} {}) (b1{}) (b2{}) (main{})",
+            self.lazies.iter().map(|t| format!(" {}", t.sexp())).collect::<String>(),
+            self.cells[0],
+            self.cells[1],
+            ops(&self.b1),
+            ops(&self.b2),
+            ops(&self.main)
+        )
+    }
+    fn lazy(&self, k: usize) -> TExpr {
+        self.lazies.get(k).cloned().unwrap_or(TExpr::Val(0))
+    }
+    /// The Gluon text of this sequence (a fragment of a do-block: fresh channels, cells, lazies,
+    /// threads, then the main operations).
+    fn glu(&self) -> String {
+        let mut s = String::new();
+        s.push_str("do _ = xsep 0\n");
+        s.push_str("do { sender = s0, receiver = r0 } = channel 0\n");
+        s.push_str("do { sender = s1, receiver = r1 } = channel 0\n");
+        s.push_str(&format!("do c0 = ref {}\n", self.cells[0]));
+        s.push_str(&format!("do c1 = ref {}\n", self.cells[1]));
+        for k in 0..NLAZY {
+            s.push_str(&format!("let z{k} = st.ref dummy\n"));
+        }
+        for k in 0..NLAZY {
+            let body = match self.lazy(k) {
+                TExpr::Val(v) => format!("{}", v),
+                TExpr::Boom => "error \"boom\"".to_string(),
+                TExpr::Add(j, n) => format!("{} + force (st.load z{})", n, j),
+            };
+            s.push_str(&format!("let l{k} = lazy (\\_ -> let _ = ev 9 10 {k} 0 in {body})\n"));
+            s.push_str(&format!("let _ = sset z{k} l{k}\n"));
+        }
+        for (t, b) in [(2usize, &self.b2), (1usize, &self.b1)] {
+            s.push_str(&format!("let b{t} =\n    do _ = wrap ()\n"));
+            for o in b {
+                s.push_str("    ");
+                s.push_str(&o.glu(t));
+                s.push('\n');
+            }
+            s.push_str("    wrap ()\n");
+            s.push_str(&format!("do t{t} = spawn b{t}\n"));
+        }
+        for o in &self.main {
+            s.push_str(&o.glu(0));
+            s.push('\n');
+        }
+        s
+    }
+    fn shape(&self) -> String {
+        let f = |v: &Vec<Op>| v.iter().map(|o| o.shape()).collect::<String>();
+        let lz: String = self
+            .lazies
+            .iter()
+            .map(|t| match t {
+                TExpr::Val(_) => "v",
+                TExpr::Boom => "b",
+                TExpr::Add(..) => "a",
+            })
+            .collect();
+        format!("{}|{}|{}|{}", lz, f(&self.main), f(&self.b1), f(&self.b2))
+    }
+    fn to_json(&self) -> Value {
+        json!({"request": self.request()})
+    }
+}
+
+const PRELUDE: &str = r#"let { send, recv, channel } = import! std.channel
+let { ref, load, (<-) } = import! std.reference
+let st = import! std.st.reference.prim
+let { lazy, force } = import! std.lazy
+let { spawn, yield, resume } = import! std.thread
+let { wrap } = import! std.applicative
+let { catch } = import! std.io
+let { ? } = import! std.io
+let { Result } = import! std.result
+let string = import! std.string
+let c17 = import! c17.prim
+
+let ev t k a b : Int -> Int -> Int -> Int -> () = c17.ev t k a b
+let sset c v = st.(<-) c v
+let dummy = lazy (\_ -> 0)
+let classify msg : String -> Int =
+    if string.contains msg "<<loop>>" then 1
+    else if string.contains msg "boom" then 2
+    else 9
+let xsep q =
+    do _ = wrap ()
+    wrap (ev 0 99 q 0)
+let xsend t c s v =
+    do x = send s v
+    match x with
+    | Ok _ -> wrap (ev t 1 c v)
+    | Err _ -> wrap (ev t 2 c v)
+let xrecv t c r =
+    do x = recv r
+    match x with
+    | Ok v -> wrap (ev t 3 c v)
+    | Err _ -> wrap (ev t 4 c 0)
+let xload t i c =
+    do x = load c
+    wrap (ev t 5 i x)
+let xstore t i c v =
+    do _ = c <- v
+    wrap (ev t 6 i v)
+let xforce t k slot =
+    do _ = wrap ()
+    let _ = ev t 7 k 0
+    let act =
+        do _ = wrap ()
+        wrap (Ok (force (st.load slot)))
+    do x = catch act (\msg -> wrap (Err (classify msg)))
+    match x with
+    | Ok v -> wrap (ev t 8 k v)
+    | Err c -> wrap (ev t 9 k c)
+let xforceu t k slot =
+    do _ = wrap ()
+    let _ = ev t 7 k 0
+    let v = force (st.load slot)
+    wrap (ev t 8 k v)
+let xresume t j th =
+    let act =
+        do r = resume th
+        match r with
+        | Ok _ -> wrap 0
+        | Err _ -> wrap (0 - 1)
+    do x = catch act (\msg -> wrap (classify msg))
+    if x == 0 then wrap (ev t 11 j 0)
+    else if x < 0 then wrap (ev t 12 j 0)
+    else wrap (ev t 13 j x)
+let xyield t =
+    do _ = wrap ()
+    let _ = ev t 14 0 0
+    let _ = yield ()
+    wrap ()
+
+"#;
+
+fn program(seqs: &[&Seq]) -> String {
+    let mut s = String::from(PRELUDE);
+    for q in seqs {
+        s.push_str(&q.glu());
+    }
+    s.push_str("wrap ()\n");
+    s
+}
+
+// ---------------------------------------------------------------------------------------------
+// child: run programs on the real VM
+
+type Event = (i64, i64, i64, i64);
+static LOG: Mutex<Vec<Event>> = Mutex::new(Vec::new());
+
+fn ev(t: i64, k: i64, a: i64, b: i64) {
+    LOG.lock().unwrap_or_else(|e| e.into_inner()).push((t, k, a, b));
+}
+fn load_prim(vm: &Thread) -> gluon::vm::Result<ExternModule> {
+    ExternModule::new(vm, record! { ev => primitive!(4, ev) })
+}
+fn take_log() -> Vec<Event> {
+    std::mem::take(&mut *LOG.lock().unwrap_or_else(|e| e.into_inner()))
+}
+
+fn mk_vm() -> RootedThread {
     let vm = gv::vm::new_vm();
     vm.get_database_mut().set_run_io(true);
-    let r = vm.run_expr::<IO<Vec<i64>>>("c17", src);
-    match r {
-        Ok((IO::Value(v), _)) => format!("ok {:?}", v),
-        Ok((IO::Exception(e), _)) => format!("exc {}", e.lines().next().unwrap_or("")),
-        Err(e) => format!("err {}", e.to_string().lines().next().unwrap_or("")),
+    gluon::import::add_extern_module(&vm, "c17.prim", load_prim);
+    vm
+}
+
+struct Flag(AtomicBool);
+impl Wake for Flag {
+    fn wake(self: Arc<Self>) {
+        self.0.store(true, Ordering::SeqCst);
     }
+    fn wake_by_ref(self: &Arc<Self>) {
+        self.0.store(true, Ordering::SeqCst);
+    }
+}
+
+fn classify(msg: &str) -> i64 {
+    if msg.contains("<<loop>>") {
+        1
+    } else if msg.contains("boom") {
+        2
+    } else {
+        9
+    }
+}
+
+/// Run one program. `block`: use the real blocking `run_expr` (a hang then really hangs; the parent's
+/// watchdog kills us). Otherwise poll by hand and report `hang` when the future is `Pending` and
+/// nothing woke it.
+fn run_program(src: &str, block: bool) -> (String, String) {
+    let vm = mk_vm();
+    take_log();
+    let r = gv::catch(|| {
+        if block {
+            let r = vm.run_expr::<IO<()>>("c17", src);
+            return Some(r.map(|x| x.0));
+        }
+        let flag = Arc::new(Flag(AtomicBool::new(false)));
+        let waker = Waker::from(flag.clone());
+        let mut cx = Context::from_waker(&waker);
+        let mut fut = Box::pin(vm.run_expr_async::<IO<()>>("c17", src));
+        let mut polls = 0u32;
+        loop {
+            flag.0.store(false, Ordering::SeqCst);
+            match fut.as_mut().poll(&mut cx) {
+                Poll::Ready(r) => return Some(r.map(|x| x.0)),
+                Poll::Pending => {
+                    polls += 1;
+                    if !flag.0.load(Ordering::SeqCst) || polls > 100_000 {
+                        // leak the future: dropping a half-run VM future is not what we test
+                        std::mem::forget(fut);
+                        return None;
+                    }
+                }
+            }
+        }
+    });
+    match r {
+        Err(p) => ("panic".into(), p),
+        Ok(None) => ("hang".into(), String::new()),
+        Ok(Some(Ok(IO::Value(())))) => ("ok".into(), String::new()),
+        Ok(Some(Ok(IO::Exception(e)))) => (format!("(err {})", classify(&e)), first_lines(&e)),
+        Ok(Some(Err(e))) => {
+            let e = e.to_string();
+            (format!("(err {})", classify(&e)), first_lines(&e))
+        }
+    }
+}
+
+fn first_lines(s: &str) -> String {
+    s.lines().take(3).collect::<Vec<_>>().join(" / ").chars().take(300).collect()
+}
+
+fn child_main() {
+    gv::quiet_panics();
+    let stdin = std::io::stdin();
+    let stdout = std::io::stdout();
+    for line in stdin.lock().lines() {
+        let line = line.unwrap();
+        if line.trim().is_empty() {
+            continue;
+        }
+        let v: Value = serde_json::from_str(&line).unwrap();
+        let src = v["src"].as_str().unwrap();
+        let block = v["block"].as_bool().unwrap_or(false);
+        let (status, msg) = run_program(src, block);
+        let log = take_log();
+        let out = json!({"id": v["id"], "status": status, "msg": msg,
+                         "log": log.iter().map(|e| json!([e.0, e.1, e.2, e.3])).collect::<Vec<_>>()});
+        let mut so = stdout.lock();
+        writeln!(so, "{}", out).unwrap();
+        so.flush().unwrap();
+    }
+}
+
+#[derive(Clone, Debug)]
+struct RunResult {
+    status: String,
+    msg: String,
+    log: Vec<Event>,
+}
+
+/// Run the programs (id, src) in child processes, `workers` at a time, `per_child` programs per child.
+fn run_all(jobs: Vec<(usize, String)>, block: bool, workers: usize, per_child: usize, timeout: Duration)
+    -> BTreeMap<usize, RunResult>
+{
+    let queue = Arc::new(Mutex::new(jobs.into_iter().collect::<VecDeque<_>>()));
+    let results = Arc::new(Mutex::new(BTreeMap::new()));
+    let mut hs = vec![];
+    for _ in 0..workers {
+        let queue = queue.clone();
+        let results = results.clone();
+        hs.push(std::thread::spawn(move || loop {
+            let batch: Vec<(usize, String)> = {
+                let mut q = queue.lock().unwrap();
+                let n = per_child.min(q.len());
+                q.drain(..n).collect()
+            };
+            if batch.is_empty() {
+                break;
+            }
+            let mut input = String::new();
+            for (id, src) in &batch {
+                input.push_str(&json!({"id": id, "src": src, "block": block}).to_string());
+                input.push('\n');
+            }
+            let exit = gv::child::run(&["--child"], input.as_bytes(), timeout);
+            let (out, abnormal) = match &exit {
+                Exit::Ok(o) => (o.clone(), None),
+                Exit::Code(c, o, e) => (o.clone(), Some((format!("crash:exit-{}", c), e.clone()))),
+                Exit::Signal(s, o, e) => (o.clone(), Some((format!("crash:signal-{}", s), e.clone()))),
+                Exit::Timeout(o) => (o.clone(), Some(("timeout".to_string(), String::new()))),
+            };
+            let mut done = 0usize;
+            {
+                let mut res = results.lock().unwrap();
+                for l in out.lines() {
+                    if let Ok(v) = serde_json::from_str::<Value>(l) {
+                        let id = v["id"].as_u64().unwrap() as usize;
+                        let log = v["log"]
+                            .as_array()
+                            .unwrap()
+                            .iter()
+                            .map(|e| {
+                                let e = e.as_array().unwrap();
+                                (e[0].as_i64().unwrap(), e[1].as_i64().unwrap(), e[2].as_i64().unwrap(), e[3].as_i64().unwrap())
+                            })
+                            .collect();
+                        res.insert(
+                            id,
+                            RunResult {
+                                status: v["status"].as_str().unwrap().to_string(),
+                                msg: v["msg"].as_str().unwrap().to_string(),
+                                log,
+                            },
+                        );
+                        done += 1;
+                    }
+                }
+                if let Some((st, msg)) = abnormal {
+                    if done < batch.len() {
+                        // the program that was running when the child died / was killed
+                        res.insert(batch[done].0, RunResult { status: st, msg, log: vec![] });
+                        done += 1;
+                    }
+                }
+            }
+            if done < batch.len() {
+                let mut q = queue.lock().unwrap();
+                for j in batch[done..].iter().rev() {
+                    q.push_front(j.clone());
+                }
+            }
+        }));
+    }
+    for h in hs {
+        h.join().unwrap();
+    }
+    Arc::try_unwrap(results).unwrap().into_inner().unwrap()
+}
+
+// ---------------------------------------------------------------------------------------------
+// property oracle (reads the program and the log only)
+
+/// The value of lazy `k` as the thunk bodies define it: Ok(v), or Err(1) self-dependent / Err(2) boom.
+fn denot(q: &Seq, k: usize, visiting: &mut Vec<usize>) -> Result<i64, i64> {
+    if visiting.contains(&k) {
+        return Err(1);
+    }
+    visiting.push(k);
+    let r = match q.lazy(k) {
+        TExpr::Val(v) => Ok(v),
+        TExpr::Boom => Err(2),
+        TExpr::Add(j, n) => denot(q, j, visiting).map(|v| v + n),
+    };
+    visiting.pop();
+    r
+}
+
+struct Failure {
+    fingerprint: String,
+    what: String,
+}
+
+fn oracle(q: &Seq, r: &RunResult) -> Vec<Failure> {
+    let fails: std::cell::RefCell<Vec<Failure>> = std::cell::RefCell::new(vec![]);
+    let fail = |fp: String, what: String| {
+        let mut fails = fails.borrow_mut();
+        if !fails.iter().any(|f| f.fingerprint == fp) {
+            fails.push(Failure { fingerprint: fp, what });
+        }
+    };
+    let mut queues: [VecDeque<i64>; 2] = [VecDeque::new(), VecDeque::new()];
+    let mut cells = q.cells;
+    let mut runs = [0u32; NLAZY];
+    let mut forced: [Option<i64>; NLAZY] = [None; NLAZY];
+    let mut saw_resume_exc = false;
+    let log = &r.log;
+    for (i, &(t, k, a, b)) in log.iter().enumerate() {
+        match k {
+            1 => queues[a as usize].push_back(b),
+            2 => fail("send:error".into(), format!("send on channel {} reported Err", a)),
+            3 => match queues[a as usize].pop_front() {
+                None => fail("fifo:recv-from-empty".into(), format!("recv on channel {} returned {} but every sent value was already delivered", a, b)),
+                Some(v) if v != b => fail("fifo:recv-out-of-order".into(), format!("recv on channel {} returned {} but the oldest undelivered value is {}", a, b, v)),
+                _ => {}
+            },
+            4 => {
+                if !queues[a as usize].is_empty() {
+                    fail("fifo:empty-with-pending".into(), format!("recv on channel {} reported empty with {} undelivered value(s)", a, queues[a as usize].len()))
+                }
+            }
+            5 => {
+                if cells[a as usize] != b {
+                    fail("ref:stale-load".into(), format!("load of cell {} returned {} but the last stored value is {}", a, b, cells[a as usize]))
+                }
+            }
+            6 => cells[a as usize] = b,
+            7 => {
+                // a force must come back at once: next event of this thread (thunk RUN events aside)
+                // is its result, or — for an uncaught force — the death of the thread.
+                let kz = a as usize;
+                let mut j = i + 1;
+                while j < log.len() && log[j].1 == 10 {
+                    j += 1;
+                }
+                let returned = j < log.len() && log[j].0 == t && (log[j].1 == 8 || log[j].1 == 9) && log[j].2 == a;
+                let died = if t == 0 {
+                    j == log.len() && r.status.starts_with("(err")
+                } else {
+                    j < log.len() && log[j].1 == 13 && log[j].2 == t
+                };
+                if !returned && !died {
+                    let cause = match denot(q, kz, &mut vec![]) {
+                        Err(1) => "self-dependency",
+                        Err(_) => "failure",
+                        Ok(_) => "success",
+                    };
+                    if t == 0 {
+                        fail(format!("hang:lazy-force-after-{}-other-thread", cause),
+                             format!("force of lazy {} by the main thread never returns (status {}): the thunk ended in an error on another thread and left the blackhole", kz, r.status));
+                    } else {
+                        fail(format!("stuck:lazy-force-after-{}-other-thread", cause),
+                             format!("force of lazy {} by coroutine {} never returns (neither value nor error; resume keeps answering Ok)", kz, t));
+                    }
+                }
+            }
+            8 => {
+                let kz = a as usize;
+                match denot(q, kz, &mut vec![]) {
+                    Ok(v) if v == b => {}
+                    Ok(v) => fail("lazy:wrong-value".into(), format!("force of lazy {} returned {} but its computation yields {}", kz, b, v)),
+                    Err(_) => fail("lazy:value-from-failing".into(), format!("force of the failing/self-dependent lazy {} returned {}", kz, b)),
+                }
+                if let Some(v) = forced[kz] {
+                    if v != b {
+                        fail("lazy:value-changed".into(), format!("two forces of lazy {} returned {} and {}", kz, v, b));
+                    }
+                }
+                forced[kz] = Some(b);
+            }
+            9 => {
+                if denot(q, a as usize, &mut vec![]).is_ok() {
+                    fail("lazy:error-from-good".into(), format!("force of lazy {} reported an error although its computation succeeds", a));
+                }
+            }
+            10 => {
+                runs[a as usize] += 1;
+                if runs[a as usize] > 1 {
+                    fail("lazy:ran-twice".into(), format!("the computation of lazy {} ran {} times", a, runs[a as usize]));
+                }
+            }
+            13 => saw_resume_exc = true,
+            _ => {}
+        }
+    }
+    if r.status == "panic" {
+        let fp = if saw_resume_exc { "panic:resume-after-thread-error" } else { "panic:other" };
+        fail(fp.into(), format!("the VM panicked: {}", r.msg.chars().take(160).collect::<String>()));
+    } else if r.status == "hang" || r.status == "timeout" {
+        let explained = fails.borrow().iter().any(|f| f.fingerprint.starts_with("hang:"));
+        if !explained {
+            fail("hang:unexplained".into(), "the program never finishes".into());
+        }
+    } else if r.status.starts_with("crash") {
+        fail(format!("{}", r.status), format!("the VM process died: {}", r.msg.chars().take(160).collect::<String>()));
+    }
+    fails.into_inner()
+}
+
+// ---------------------------------------------------------------------------------------------
+// generation
+
+fn bad(q: &Seq, k: usize) -> bool {
+    denot(q, k, &mut vec![]).is_err()
+}
+
+/// May this sequence hang / panic / end in an error (then it runs alone, not in a batch)?
+fn risky(q: &Seq) -> bool {
+    let any_bad = (0..NLAZY).any(|k| bad(q, k));
+    let forces = |v: &Vec<Op>| v.iter().any(|o| matches!(o, Op::Force(_) | Op::ForceU(_)));
+    any_bad && (forces(&q.main) || forces(&q.b1) || forces(&q.b2))
+}
+
+struct Gen {
+    rng: gv::rng::Rng,
+    next_val: i64,
+}
+
+impl Gen {
+    fn val(&mut self) -> i64 {
+        self.next_val += 1;
+        self.next_val
+    }
+    fn op(&mut self, tid: usize, wl: &[u64; 8]) -> Op {
+        let total: u64 = wl.iter().sum();
+        let mut x = self.rng.below(total);
+        let mut i = 0;
+        while x >= wl[i] {
+            x -= wl[i];
+            i += 1;
+        }
+        let c = if self.rng.chance(4, 5) { 0 } else { 1 };
+        let k = self.rng.below(NLAZY as u64) as usize;
+        match i {
+            0 => Op::Send(c, self.val()),
+            1 => Op::Recv(c),
+            2 => Op::Load(c),
+            3 => Op::Store(c, self.val()),
+            4 => Op::Force(k),
+            5 => Op::ForceU(k),
+            6 => {
+                if tid == 0 {
+                    Op::Resume(1 + self.rng.below(2) as usize)
+                } else if tid == 1 {
+                    Op::Resume(2)
+                } else {
+                    Op::Yield
+                }
+            }
+            _ => Op::Yield,
+        }
+    }
+    fn texpr(&mut self, profile: u64) -> TExpr {
+        // profile 0: only values; 1: mixed; 2: mostly failing / cyclic
+        let r = self.rng.below(10);
+        match profile {
+            0 => {
+                if r < 7 {
+                    TExpr::Val(self.val())
+                } else {
+                    TExpr::Add(self.rng.below(NLAZY as u64) as usize, self.rng.range(1, 5))
+                }
+            }
+            1 => {
+                if r < 5 {
+                    TExpr::Val(self.val())
+                } else if r < 7 {
+                    TExpr::Boom
+                } else {
+                    TExpr::Add(self.rng.below(NLAZY as u64) as usize, self.rng.range(1, 5))
+                }
+            }
+            _ => {
+                if r < 2 {
+                    TExpr::Val(self.val())
+                } else if r < 6 {
+                    TExpr::Boom
+                } else {
+                    TExpr::Add(self.rng.below(NLAZY as u64) as usize, self.rng.range(1, 5))
+                }
+            }
+        }
+    }
+    fn seq(&mut self, max_ops: usize) -> Seq {
+        self.next_val = 10;
+        // theme: which operations dominate
+        let theme = self.rng.below(6);
+        //            send recv load store force forceU resume yield
+        let wl: [u64; 8] = match theme {
+            0 => [7, 5, 1, 1, 0, 0, 3, 2],  // channels + threads
+            1 => [1, 1, 6, 6, 0, 0, 3, 2],  // cells + threads
+            2 => [1, 1, 1, 1, 8, 1, 4, 1],  // lazies + threads
+            3 => [3, 3, 2, 2, 3, 1, 3, 2],  // everything
+            5 => [1, 1, 1, 1, 2, 5, 7, 1],  // threads dying from uncaught forces, resumed again
+            _ => [6, 5, 3, 3, 3, 0, 0, 1],  // single thread
+        };
+        let lazy_profile = match theme {
+            0 | 1 => 0,
+            2 | 5 => 1 + self.rng.below(2),
+            _ => self.rng.below(3),
+        };
+        let nl = if theme <= 1 { self.rng.below(2) as usize } else { 1 + self.rng.below(NLAZY as u64) as usize };
+        let lazies = (0..nl).map(|_| self.texpr(lazy_profile)).collect();
+        let total = 1 + self.rng.below(max_ops as u64) as usize;
+        let (n1, n2) = if theme == 4 {
+            (0, 0)
+        } else {
+            let n1 = self.rng.below(total as u64 / 2 + 1) as usize;
+            let n2 = self.rng.below((total - n1) as u64 / 2 + 1) as usize;
+            (n1, n2)
+        };
+        let nm = total - n1 - n2;
+        let cells = [100 + self.rng.below(3) as i64, 200 + self.rng.below(3) as i64];
+        let mut q = Seq { lazies, cells, b1: vec![], b2: vec![], main: vec![] };
+        // draw in an interleaved order so that the unique send/store values are not sorted by thread
+        let mut slots: Vec<usize> = std::iter::repeat(0).take(nm).chain(std::iter::repeat(1).take(n1)).chain(std::iter::repeat(2).take(n2)).collect();
+        for i in (1..slots.len()).rev() {
+            let j = self.rng.below(i as u64 + 1) as usize;
+            slots.swap(i, j);
+        }
+        for t in slots {
+            let o = self.op(t, &wl);
+            match t {
+                0 => q.main.push(o),
+                1 => q.b1.push(o),
+                _ => q.b2.push(o),
+            }
+        }
+        // threads that are never resumed contribute nothing: make sure main resumes what exists
+        if !q.b1.is_empty() && !q.main.iter().any(|o| *o == Op::Resume(1)) {
+            let at = self.rng.below(q.main.len() as u64 + 1) as usize;
+            q.main.insert(at, Op::Resume(1));
+        }
+        if !q.b2.is_empty() && !q.main.iter().any(|o| *o == Op::Resume(2)) && !q.b1.iter().any(|o| *o == Op::Resume(2)) {
+            let at = self.rng.below(q.main.len() as u64 + 1) as usize;
+            q.main.insert(at, Op::Resume(2));
+        }
+        q
+    }
+}
+
+/// All main-thread sequences of exactly `n` operations over the single-thread alphabet
+/// {send c, recv c, load r, store r, force k (k < nl)} with the given lazies.
+fn enumerate_single(n: usize, lazies: &[TExpr], out: &mut Vec<Seq>) {
+    let nl = lazies.len();
+    let alpha = 8 + nl;
+    let mut idx = vec![0usize; n];
+    loop {
+        let mut v = 10;
+        let mut main = vec![];
+        for &i in &idx {
+            v += 1;
+            main.push(match i {
+                0 => Op::Send(0, v),
+                1 => Op::Send(1, v),
+                2 => Op::Recv(0),
+                3 => Op::Recv(1),
+                4 => Op::Load(0),
+                5 => Op::Load(1),
+                6 => Op::Store(0, v),
+                7 => Op::Store(1, v),
+                k => Op::Force(k - 8),
+            });
+        }
+        out.push(Seq { lazies: lazies.to_vec(), cells: [100, 200], b1: vec![], b2: vec![], main });
+        let mut k = 0;
+        while k < n {
+            idx[k] += 1;
+            if idx[k] < alpha {
+                break;
+            }
+            idx[k] = 0;
+            k += 1;
+        }
+        if k == n {
+            break;
+        }
+    }
+}
+
+/// All two-thread schedules: main = interleavings of `resume 1` with operations, body 1 fixed shapes.
+/// Enumerates every (main, b1) with |main| + |b1| = n over the small alphabet
+/// {send 0, recv 0, force 0, force-outside-catch 0, resume 1 / yield}.
+fn enumerate_threads(n: usize, lazy0: &TExpr, out: &mut Vec<Seq>) {
+    for n1 in 1..n {
+        let nm = n - n1;
+        let mut idx = vec![0usize; n];
+        loop {
+            let mut v = 10;
+            let mk = |i: usize, t: usize, v: &mut i64| {
+                *v += 1;
+                match i {
+                    0 => Op::Send(0, *v),
+                    1 => Op::Recv(0),
+                    2 => Op::Force(0),
+                    4 => Op::ForceU(0),
+                    _ => {
+                        if t == 0 {
+                            Op::Resume(1)
+                        } else {
+                            Op::Yield
+                        }
+                    }
+                }
+            };
+            let main: Vec<Op> = idx[..nm].iter().map(|&i| mk(i, 0, &mut v)).collect();
+            let b1: Vec<Op> = idx[nm..].iter().map(|&i| mk(i, 1, &mut v)).collect();
+            if main.iter().any(|o| *o == Op::Resume(1)) {
+                out.push(Seq { lazies: vec![lazy0.clone()], cells: [100, 200], b1, b2: vec![], main });
+            }
+            let mut k = 0;
+            while k < n {
+                idx[k] += 1;
+                if idx[k] < 5 {
+                    break;
+                }
+                idx[k] = 0;
+                k += 1;
+            }
+            if k == n {
+                break;
+            }
+        }
+    }
+}
+
+// ---------------------------------------------------------------------------------------------
+
+fn render_payload(status: &str, log: &[Event]) -> String {
+    let mut s = format!("({}", status);
+    for e in log {
+        s.push_str(&format!(" ({} {} {} {})", e.0, e.1, e.2, e.3));
+    }
+    s.push(')');
+    s
+}
+
+fn parse_request(req: &str) -> Option<Seq> {
+    // minimal s-expression reader for `prog (lazies …) (cells a b) (b1 …) (b2 …) (main …)`
+    #[derive(Debug)]
+    enum S {
+        A(String),
+        L(Vec<S>),
+    }
+    fn parse(ts: &mut std::iter::Peekable<std::vec::IntoIter<String>>) -> Option<S> {
+        let t = ts.next()?;
+        if t == "(" {
+            let mut v = vec![];
+            while ts.peek()? != ")" {
+                v.push(parse(ts)?);
+            }
+            ts.next();
+            Some(S::L(v))
+        } else {
+            Some(S::A(t))
+        }
+    }
+    let spaced = format!("({})", req).replace('(', " ( ").replace(')', " ) ");
+    let toks: Vec<String> = spaced.split_whitespace().map(|s| s.to_string()).collect();
+    let top = parse(&mut toks.into_iter().peekable())?;
+    let items = match top {
+        S::L(v) => v,
+        _ => return None,
+    };
+    let num = |s: &S| -> Option<i64> {
+        match s {
+            S::A(a) => a.parse().ok(),
+            _ => None,
+        }
+    };
+    let ops = |s: &S| -> Option<Vec<Op>> {
+        let v = match s {
+            S::L(v) => v,
+            _ => return None,
+        };
+        let mut r = vec![];
+        for o in &v[1..] {
+            r.push(match o {
+                S::A(a) if a == "yield" => Op::Yield,
+                S::L(x) => {
+                    let h = match &x[0] {
+                        S::A(a) => a.as_str(),
+                        _ => return None,
+                    };
+                    let a1 = num(&x[1])?;
+                    match h {
+                        "send" => Op::Send(a1 as usize, num(&x[2])?),
+                        "recv" => Op::Recv(a1 as usize),
+                        "load" => Op::Load(a1 as usize),
+                        "store" => Op::Store(a1 as usize, num(&x[2])?),
+                        "force" => Op::Force(a1 as usize),
+                        "forceu" => Op::ForceU(a1 as usize),
+                        "resume" => Op::Resume(a1 as usize),
+                        _ => return None,
+                    }
+                }
+                _ => return None,
+            });
+        }
+        Some(r)
+    };
+    let lz = match &items[1] {
+        S::L(v) => v[1..]
+            .iter()
+            .map(|t| match t {
+                S::A(a) if a == "boom" => Some(TExpr::Boom),
+                S::L(x) => match &x[0] {
+                    S::A(h) if h == "val" => Some(TExpr::Val(num(&x[1])?)),
+                    S::A(h) if h == "add" => Some(TExpr::Add(num(&x[1])? as usize, num(&x[2])?)),
+                    _ => None,
+                },
+                _ => None,
+            })
+            .collect::<Option<Vec<_>>>()?,
+        _ => return None,
+    };
+    let cells = match &items[2] {
+        S::L(v) => [num(&v[1])?, num(&v[2])?],
+        _ => return None,
+    };
+    Some(Seq { lazies: lz, cells, b1: ops(&items[3])?, b2: ops(&items[4])?, main: ops(&items[5])? })
+}
+
+fn replay(path: &std::path::Path) {
+    let v: Value = serde_json::from_str(&std::fs::read_to_string(path).unwrap()).unwrap();
+    let case = if v.get("case").is_some() { &v["case"] } else { &v };
+    let req = case["request"].as_str().expect("replay file needs case.request");
+    let q = parse_request(req).expect("unparseable request");
+    println!("request: {}", req);
+    println!("program:\n{}", program(&[&q]));
+    let r = run_all(vec![(0, program(&[&q]))], false, 1, 1, Duration::from_secs(60));
+    let r0 = &r[&0];
+    println!("polled run: status={} msg={} log={}", r0.status, r0.msg, render_payload(&r0.status, &strip_sep(&r0.log)));
+    let mut r0s = r0.clone();
+    r0s.log = strip_sep(&r0.log);
+    for f in oracle(&q, &r0s) {
+        println!("ORACLE FAILURE {}: {}", f.fingerprint, f.what);
+    }
+    let rb = run_all(vec![(0, program(&[&q]))], true, 1, 1, Duration::from_secs(10));
+    println!("blocking run_expr under a 10 s watchdog: status={} {}", rb[&0].status, rb[&0].msg);
+}
+
+fn strip_sep(log: &[Event]) -> Vec<Event> {
+    log.iter().filter(|e| e.1 != 99).cloned().collect()
 }
 
 fn main() {
     let a: Vec<String> = std::env::args().collect();
-    if a.len() >= 3 && a[1] == "--probe" {
-        let src = std::fs::read_to_string(&a[2]).unwrap();
-        println!("{}", run_src(&src));
+    if a.iter().any(|x| x == "--child") {
+        child_main();
         return;
     }
+    if a.len() >= 3 && a[1] == "--probe" {
+        let src = std::fs::read_to_string(&a[2]).unwrap();
+        let (st, msg) = run_program(&src, a.len() > 3);
+        println!("{} {} {:?}", st, msg, take_log());
+        return;
+    }
+    gv::quiet_panics();
+    let args = Args::parse();
+    if let Some(p) = &args.replay {
+        replay(p);
+        // still produce (empty) outputs so that ./check can finish
+        Out::new(&args.out).finish();
+        return;
+    }
+    let mut out = Out::new(&args.out);
+    let thorough = args.thorough();
+    let workers = 8;
+
+    // ---- the case list: corpus first, then enumerations, then random
+    let mut seqs: Vec<(Seq, &'static str)> = vec![];
+    if let Ok(rd) = std::fs::read_dir("/verif/corpus/C17") {
+        let mut files: Vec<_> = rd.filter_map(|e| e.ok()).map(|e| e.path()).collect();
+        files.sort();
+        for f in files {
+            if let Ok(s) = std::fs::read_to_string(&f) {
+                if let Ok(v) = serde_json::from_str::<Value>(&s) {
+                    let case = if v.get("case").is_some() { &v["case"] } else { &v };
+                    if let Some(q) = case["request"].as_str().and_then(parse_request) {
+                        seqs.push((q, "corpus"));
+                    }
+                }
+            }
+        }
+    }
+    let exh_single = if thorough { 4 } else { 3 };
+    let exh_threads = if thorough { 5 } else { 4 };
+    {
+        let mut v = vec![];
+        // single thread: channels + cells exhaustively, with one good and one failing/self-dependent lazy
+        let lz_sets: Vec<Vec<TExpr>> = vec![
+            vec![TExpr::Val(42), TExpr::Boom],
+            vec![TExpr::Add(1, 1), TExpr::Add(0, 2)],
+        ];
+        for n in 0..=exh_single {
+            enumerate_single(n, &lz_sets[0], &mut v);
+        }
+        for n in 1..=(exh_single - 1) {
+            // second lazy set: only sequences that force something are new
+            let mut w = vec![];
+            enumerate_single(n, &lz_sets[1], &mut w);
+            v.extend(w.into_iter().filter(|q| q.main.iter().any(|o| matches!(o, Op::Force(_)))));
+        }
+        for q in v {
+            seqs.push((q, "exh-single"));
+        }
+        let mut v = vec![];
+        for n in 2..=exh_threads {
+            enumerate_threads(n, &TExpr::Val(7), &mut v);
+        }
+        for n in 2..=(exh_threads - 1) {
+            let mut w = vec![];
+            enumerate_threads(n, &TExpr::Boom, &mut w);
+            v.extend(w.into_iter().filter(|q| q.main.iter().chain(q.b1.iter()).any(|o| matches!(o, Op::Force(_) | Op::ForceU(_)))));
+            let mut w = vec![];
+            enumerate_threads(n, &TExpr::Add(0, 1), &mut w);
+            v.extend(w.into_iter().filter(|q| q.main.iter().chain(q.b1.iter()).any(|o| matches!(o, Op::Force(_) | Op::ForceU(_)))));
+        }
+        for q in v {
+            seqs.push((q, "exh-threads"));
+        }
+    }
+    out.stats.insert("exhaustive_single_thread_up_to_ops".into(), (exh_single as u64).into());
+    out.stats.insert("exhaustive_two_thread_up_to_ops".into(), (exh_threads as u64).into());
+    let n_rand = if thorough { 30000 } else { 2500 };
+    let mut g = Gen { rng: gv::rng::Rng::new(args.seed, 17), next_val: 10 };
+    for i in 0..n_rand {
+        let max_ops = if i % 4 == 0 { 16 } else { 8 };
+        seqs.push((g.seq(max_ops), "random"));
+    }
+
+    // ---- group into programs: safe sequences are batched, risky ones run alone
+    let batch = 12;
+    let mut programs: Vec<Vec<usize>> = vec![];
+    let mut cur: Vec<usize> = vec![];
+    for (i, (q, _)) in seqs.iter().enumerate() {
+        if risky(q) {
+            programs.push(vec![i]);
+        } else {
+            cur.push(i);
+            if cur.len() == batch {
+                programs.push(std::mem::take(&mut cur));
+            }
+        }
+    }
+    if !cur.is_empty() {
+        programs.push(cur);
+    }
+    let mk_src = |idxs: &Vec<usize>| program(&idxs.iter().map(|&i| &seqs[i].0).collect::<Vec<_>>());
+    let jobs: Vec<(usize, String)> = programs.iter().enumerate().map(|(p, idxs)| (p, mk_src(idxs))).collect();
+    let n_programs = jobs.len();
+    let res = run_all(jobs, false, workers, 25, Duration::from_secs(120));
+
+    // split batch logs; batches that did not end `ok` with the right number of parts are re-run alone
+    let mut per_seq: BTreeMap<usize, RunResult> = BTreeMap::new();
+    let mut redo: Vec<usize> = vec![];
+    for (p, idxs) in programs.iter().enumerate() {
+        let r = &res[&p];
+        if idxs.len() == 1 {
+            let mut r1 = r.clone();
+            r1.log = strip_sep(&r.log);
+            per_seq.insert(idxs[0], r1);
+            continue;
+        }
+        let mut parts: Vec<Vec<Event>> = vec![];
+        for e in &r.log {
+            if e.1 == 99 {
+                parts.push(vec![]);
+            } else if let Some(l) = parts.last_mut() {
+                l.push(*e);
+            }
+        }
+        if r.status == "ok" && parts.len() == idxs.len() {
+            for (i, l) in idxs.iter().zip(parts) {
+                per_seq.insert(*i, RunResult { status: "ok".into(), msg: String::new(), log: l });
+            }
+        } else {
+            redo.extend(idxs.iter().cloned());
+        }
+    }
+    out.add("programs", n_programs as u64);
+    out.add("batched-sequences-rerun-alone", redo.len() as u64);
+    if !redo.is_empty() {
+        let jobs: Vec<(usize, String)> = redo.iter().map(|&i| (i, program(&[&seqs[i].0]))).collect();
+        let res2 = run_all(jobs, false, workers, 25, Duration::from_secs(120));
+        for (i, r) in res2 {
+            let mut r1 = r.clone();
+            r1.log = strip_sep(&r.log);
+            per_seq.insert(i, r1);
+        }
+    }
+
+    // ---- oracle + correspondence output
+    let mut confirm: BTreeMap<String, usize> = BTreeMap::new(); // fingerprint -> first sequence
+    let mut all_fails: Vec<(usize, Failure)> = vec![];
+    for (i, (q, origin)) in seqs.iter().enumerate() {
+        let r = &per_seq[&i];
+        let req = q.request();
+        let payload = render_payload(&r.status, &r.log);
+        out.count(&format!("origin:{}", origin));
+        out.count(&format!("status:{}", r.status.trim_matches(|c| c == '(' || c == ')').replace(' ', "-")));
+        for e in &r.log {
+            out.count(&format!("event-kind:{}", e.1));
+        }
+        let nops = q.main.len() + q.b1.len() + q.b2.len();
+        out.count(&format!("ops:{}", if nops > 8 { "9+".to_string() } else { nops.to_string() }));
+        if nops >= 2 {
+            out.class(format!("{}=>{}", q.shape(), r.status));
+        }
+        if i % 397 == 3 {
+            out.sample(json!({"request": req, "impl": payload}));
+        }
+        for f in oracle(q, r) {
+            confirm.entry(f.fingerprint.clone()).or_insert(i);
+            all_fails.push((i, f));
+        }
+        out.case(&req, &payload);
+    }
+    // confirm hangs with the real blocking run_expr under the watchdog (first of each fingerprint)
+    let watchdog = Duration::from_secs(if thorough { 10 } else { 4 });
+    let to_confirm: Vec<(String, usize)> = confirm
+        .iter()
+        .filter(|(fp, _)| fp.starts_with("hang:"))
+        .map(|(fp, i)| (fp.clone(), *i))
+        .collect();
+    let mut confirmed: BTreeMap<String, String> = BTreeMap::new();
+    if !to_confirm.is_empty() {
+        let jobs: Vec<(usize, String)> = to_confirm.iter().map(|(_, i)| (*i, program(&[&seqs[*i].0]))).collect();
+        let rb = run_all(jobs, true, workers, 1, watchdog);
+        for (fp, i) in &to_confirm {
+            confirmed.insert(fp.clone(), rb[i].status.clone());
+            out.count(&format!("hang-confirmed-by-watchdog:{}:{}", fp, rb[i].status));
+        }
+    }
+    for (i, f) in all_fails {
+        let mut what = f.what.clone();
+        if let Some(st) = confirmed.get(&f.fingerprint) {
+            if st != "timeout" {
+                // polling said hang but the real blocking call finished: our detection would be wrong
+                what = format!("{} [blocking run_expr answered {} — hang detection disagrees]", what, st);
+            } else {
+                what = format!("{} [confirmed: blocking run_expr killed by the {} s watchdog]", what, watchdog.as_secs());
+            }
+        }
+        out.count(&format!("oracle:{}", f.fingerprint));
+        out.oracle_fail(&f.fingerprint, &what, seqs[i].0.to_json());
+    }
+    out.finish();
 }
